@@ -13,7 +13,7 @@ from formulaic.materializers import FormulaMaterializer
 from lib.common import Check
 from sr import rig
 from sr.pipeline import sym_ab, symbolic_pipeline
-from sr.symreal import lift, model_value
+from sr.symreal import conj, lift, model_value, same_cell
 
 from . import matrix_common as mc
 from . import replays
@@ -95,7 +95,7 @@ def run(check: Check) -> None:
                     if o == "pandas":
                         yield f"{tag}: DataFrame labels", list(mm.columns) == rl
                     if c.shape == rc.shape:
-                        yield f"{tag}: same cells for all values", z3.And(*[lift(c[i, j]) == lift(rc[i, j]) for i in range(c.shape[0]) for j in range(c.shape[1])]) if c.size else True
+                        yield f"{tag}: same cells for all values", conj([same_cell(c[i, j], rc[i, j]) for i in range(c.shape[0]) for j in range(c.shape[1])])
 
             def rep(model, label, formula=formula, efr=efr):
                 p = {"kind": "c05_agree", "formula": formula, "efr": efr,
